@@ -422,7 +422,34 @@ class Inliner:
         if mapping:
             rn = _Rename(mapping)
             body = [rn.visit(s) for s in body]
+        # no variable capture: names the callee binds itself (its own locals, parameters bound by a prefix assignment) that also occur in
+        # the caller are given fresh names; names a closure declares nonlocal/global are the caller's variables and stay
+        shared = {n_ for s_ in callee.body for g_ in ast.walk(s_) if isinstance(g_, (ast.Nonlocal, ast.Global)) for n_ in g_.names}
+        own = set()
+        for s_ in prefix + body:
+            for x in ast.walk(s_):
+                if isinstance(x, ast.Name) and isinstance(x.ctx, (ast.Store, ast.Del)):
+                    own.add(x.id)
+        own -= shared
+        root = getattr(self, "root", None)
+        if root is not None and own:
+            caller_names = {x.id for x in ast.walk(root) if isinstance(x, ast.Name)} | {a_.arg for a_ in ast.walk(root) if isinstance(a_, ast.arg)}
+            # the prefix values are caller expressions: evaluate them before renaming can touch them
+            clash = {n_ for n_ in own if n_ in caller_names}
+            if clash:
+                Inliner._fresh = getattr(Inliner, "_fresh", 0) + 1
+                ren = {n_: f"{n_}__i{Inliner._fresh}" for n_ in clash}
+                new_prefix = []
+                for s_ in prefix:
+                    # rename only the target of a prefix assignment (its value belongs to the caller)
+                    if isinstance(s_, ast.Assign) and isinstance(s_.targets[0], ast.Name) and s_.targets[0].id in ren:
+                        s_ = ast.Assign(targets=[ast.Name(id=ren[s_.targets[0].id], ctx=ast.Store())], value=s_.value, lineno=getattr(s_, "lineno", 0), col_offset=0)
+                    new_prefix.append(s_)
+                prefix = new_prefix
+                rn2 = _Rename(ren)
+                body = [rn2.visit(s_) for s_ in body]
         inner = Inliner(self.m, self.rel, self.cls, self.stack + (callee.name,))
+        inner.root = getattr(self, "root", None)
         wrapper = ast.FunctionDef(name=callee.name, args=callee.args, body=prefix + body, decorator_list=[], lineno=callee.lineno, col_offset=0)
         inner.run(wrapper)
         self.inlined |= inner.inlined
@@ -446,6 +473,8 @@ class Inliner:
                 for h in getattr(s, "handlers", []) or []:
                     collect(h.body)
         collect(fn.body)
+        if getattr(self, "root", None) is None:
+            self.root = fn
         # local aliases of methods: `helper = self._helper`, bound once
         self.aliases = {}
         cnt = {}
